@@ -31,4 +31,13 @@ impl<'a> DirectEventAccessor<'a> {
             }),
         }
     }
+
+    /// Get a field value as an f64 when the payload holds a float
+    #[inline]
+    pub fn get_field_as_f64(&self, field: &str) -> Option<f64> {
+        match self.event.payload.get(field) {
+            Some(crate::engine::types::ScalarValue::Float64(f)) => Some(*f),
+            _ => None,
+        }
+    }
 }
